@@ -355,15 +355,22 @@ func ruleCurrentThreadRestoredOnRaise(c *Ctx) {
 			}
 			var between ssa.Instruction
 			allInstrs(fn, func(mid ssa.Instruction) {
+				cl, isCall := mid.(*ssa.Call)
+				if !isCall || between != nil {
+					return
+				}
 				sc := staticCallee(mid)
-				if between == nil && sc != nil && raises[sc] && g.Live(mid) && g.Dominates(saved, mid) && g.Dominates(mid, in) {
+				_, builtin := cl.Call.Value.(*ssa.Builtin)
+				// a call through a function value (ls.mainLoop is a field) can raise as well
+				mayRaise := (sc != nil && raises[sc]) || (sc == nil && !builtin)
+				if mayRaise && g.Live(mid) && g.Dominates(saved, mid) && g.Dominates(mid, in) {
 					between = mid
 				}
 			})
 			if between != nil {
 				c.Sites++
 				c.bad(R, "CurrentThread:restore-survives-a-raise:"+fname(fn), p.ipos(in),
-					fname(fn)+" puts the saved G.CurrentThread back in a plain statement after "+fname(staticCallee(between))+", which can raise: when it does, the unwinding skips the statement and CurrentThread keeps naming the other thread (coroutine.running() / status() answer for a thread that is not running)")
+					fname(fn)+" puts the saved G.CurrentThread back in a plain statement after a call ("+between.String()+") that can raise: when it does, the unwinding skips the statement and CurrentThread keeps naming the other thread (coroutine.running() / status() answer for a thread that is not running)")
 			}
 		})
 	}
